@@ -1141,6 +1141,15 @@ def gen_algo(repo: pathlib.Path) -> str:
             and not inner.generators[0].ifs and isinstance(inner.generators[0].target, ast.Name) \
             and ast.unparse(inner.generators[0].iter) == batteries:
         var, elt = inner.generators[0].target.id, inner.elt
+    elif isinstance(inner, ast.Call) and ast.unparse(inner.func) == "map" and len(inner.args) == 2 and not inner.keywords \
+            and isinstance(inner.args[0], ast.Name) and ast.unparse(inner.args[1]) == batteries:
+        # `map(<module-level function>, batteries)`: a function of one parameter whose body is `return <expression>`
+        hf = next((f for f in tree.body if isinstance(f, ast.FunctionDef) and f.name == inner.args[0].id), None)
+        hb = body_no_doc(hf) if hf is not None else []
+        if hf is not None and len(hf.args.args) == 1 and not (hf.args.vararg or hf.args.kwarg or hf.args.kwonlyargs
+                                                               or hf.args.defaults or hf.decorator_list) \
+                and len(hb) == 1 and isinstance(hb[0], ast.Return) and hb[0].value is not None:
+            var, elt = hf.args.args[0].arg, hb[0].value
     if var is None:
         raise Unsupported("AggregatedBatteryData.power_bounds: expected one PowerBounds(...) per element of `batteries` "
                           "(map(lambda …, batteries) or a comprehension over it)")
